@@ -51,6 +51,8 @@ def units(tier):
     for f in range(len(soup.V)):
         us.append({'k': 'tract', 'first': f})
     us.append({'k': 'invalid'})
+    for f in range(len(LOT_TOKENS)):
+        us.append({'k': 'lotsoup', 'first': f})
     for slot in ('twp', 'rge'):
         for form in range(len(OCR_FORMS)):
             us.append({'k': 'ocr', 'slot': slot, 'form': form})
@@ -265,9 +267,25 @@ def judge_invalid(acc, only=None):
         acc.guard('invalid_' + ('accepted' if res == 'accepted' else 'rejected'))
 
 
+# tokens of lot lists incl. acreages, repeated lot numbers and divisions: every sequence of <= 4 tokens is a tract description
+LOT_TOKENS = ['Lot 1', 'Lots 1', 'Lot 1(40.00)', '1(40.10)', '2(39.50)', 'Lot 2 [38.5]', 'L3', 'and', ',', '-', 'thru', 'N/2 of', '3', '1', 'NE/4',
+              '()', 'Lot']
+
+
+def lotsoup_texts(first, depth=3):
+    import itertools
+    for L in range(1, depth + 1):
+        for tail in itertools.product(range(len(LOT_TOKENS)), repeat=L - 1):
+            yield ' '.join([LOT_TOKENS[first]] + [LOT_TOKENS[i] for i in tail])
+
+
 def run_unit(unit, tier):
     acc = Acc()
     k = unit['k']
+    if k == 'lotsoup':
+        for text in lotsoup_texts(unit['first'], 3 if tier == 'quick' else 4):
+            judge_tract(acc, text)
+        return acc.result()
     if k == 'tract':
         for text in soup.soup_texts(unit['first'], 3):
             judge_tract(acc, text)
